@@ -73,6 +73,8 @@ void run_sqrt(sink& out, std::uint64_t salt)
 
 template<class Rep, int E>
 using SI = cnl::scaled_integer<Rep, cnl::power<E>>;
+template<class Rep, int E, int R>
+using SIR = cnl::scaled_integer<Rep, cnl::power<E, R>>;
 
 int main(int argc, char** argv)
 {
@@ -108,6 +110,12 @@ int main(int argc, char** argv)
     run_sqrt<SI<std::int16_t, 4>>(out, 25);
     run_sqrt<SI<cnl::elastic_integer<31>, -20>>(out, 26);
     run_sqrt<SI<std::uint8_t, -2>>(out, 27);
+    // other radices: the result keeps the radix and halves the exponent
+    run_sqrt<SIR<std::int32_t, -2, 10>>(out, 28);
+    run_sqrt<SIR<std::int64_t, -4, 10>>(out, 29);
+    run_sqrt<SIR<std::int16_t, 2, 10>>(out, 30);
+    run_sqrt<SIR<std::int32_t, -4, 3>>(out, 31);
+    run_sqrt<SIR<std::uint32_t, 2, 16>>(out, 32);
     std::fprintf(stderr, "events=%llu insts=%d\n", out.n, out.ninst);
     return 0;
 }
